@@ -236,3 +236,10 @@ Section Nested.
   Definition nested_data (n : nat) (ctx : list (@mat R * @mat R)) (A : @mat R) : @mat R :=
     fold_left (fun X c => mmul n (snd c) (mmul n X (fst c))) ctx A.
 End Nested.
+
+(* the accumulated transformation as the model computes it from the transformations on the stack of the basis manager:
+   (n, Z_1 .. Z_m = Manager().basis_transformations[1:] of the run, the matrix handed to the cases above as c_S) *)
+Definition case_bp := (nat * list (list (list Q)) * list (list Q))%type.
+Definition bp_agrees (tol : Q) (c : case_bp) : bool :=
+  let '(n, Zs, SS) := c in
+  all2 (all2 (fun x y => qclose tol (c2q x) y)) (list_of_mat n (tab2 n n (basis_product n (map (fun Z => tab2 n n (qmat Z)) Zs)))) SS.
